@@ -12,7 +12,6 @@ Definition yielded (l : list rev) : list rev := filter is_item l.
 
 Definition qidx (q : qitem) : list Z := match q with QClosed => [] | QPiece i _ _ => [i] end.
 Definition held_item (h : tstate * hpc) : list qitem := match snd h with HPutHash it => [it] | _ => [] end.
-Definition pending_item (s : state) : list qitem := match s_rpc s with RPut it => [it] | _ => [] end.
 
 (* everything between the reader and the collector *)
 Definition flight (s : state) : list qitem := s_pq s ++ flat_map held_item (s_hs s) ++ s_hq s.
@@ -31,14 +30,686 @@ Definition payload_ok (Y : list rev) (q : qitem) : Prop :=
       end
   end.
 
-Definition FInv (c : config) (s : state) : Prop :=
-  let Y := yielded (cf_items c) in
-  0 <= s_ridx s <= zlen Y /\
-  (s_rtodo s = [] \/ yielded (s_rtodo s) = skipn (Z.to_nat (s_ridx s)) Y) /\
-  (forall it, s_rpc s = RPut it -> exists h exc r, it = QPiece (s_ridx s) h exc /\ s_rtodo s = r :: tl (s_rtodo s) /\ is_item r = true) /\
-  (s_rpc s = RStopRead -> s_stop s = false \/ True) /\
-  NoDup (indices s) /\
-  Forall (fun i => 0 <= i < s_ridx s) (indices s) /\
-  Forall (payload_ok Y) (pending_item s ++ flight s) /\
-  Forall (fun ih => In (fst ih) (s_seen s) /\ nth_error Y (Z.to_nat (fst ih)) = Some (RPiece (snd ih))) (s_hashes s) /\
-  NoDup (map fst (s_hashes s)).
+Record FInv (c : config) (s : state) : Prop := {
+  fi_ridx : 0 <= s_ridx s <= zlen (yielded (cf_items c));
+  fi_todo : s_rtodo s = [] \/ yielded (s_rtodo s) = skipn (Z.to_nat (s_ridx s)) (yielded (cf_items c));
+  fi_head : s_rst s = TRunning -> s_rpc s = RStopRead -> exists r rest, s_rtodo s = r :: rest /\ is_item r = true;
+  fi_put : forall it, s_rpc s = RPut it ->
+           exists r rest h exc, s_rtodo s = r :: rest /\ is_item r = true /\ it = QPiece (s_ridx s) h exc /\ payload_ok (yielded (cf_items c)) it;
+  fi_clock : s_rpc s = RClock -> exists rest, s_rtodo s = ROom :: rest;
+  fi_new : s_rst s = TNew -> s_ridx s = 0 /\ s_rtodo s = cf_items c;
+  fi_start : forall t, s_mpc s = MAlive t \/ s_mpc s = MStart t -> 1 <= t /\ (t = 1 -> s_rst s = TNew);
+  fi_nodup : NoDup (indices s);
+  fi_bound : Forall (fun i => 0 <= i < s_ridx s) (indices s);
+  fi_payload : Forall (payload_ok (yielded (cf_items c))) (flight s);
+  fi_hashes : Forall (fun ih => In (fst ih) (s_seen s) /\ nth_error (yielded (cf_items c)) (Z.to_nat (fst ih)) = Some (RPiece (snd ih))) (s_hashes s);
+  fi_hnodup : NoDup (map fst (s_hashes s))
+}.
+
+(* ---- list facts ---- *)
+Lemma skipn_cons_nth {X} (l : list X) : forall n x t, skipn n l = x :: t -> nth_error l n = Some x /\ skipn (S n) l = t /\ (n < length l)%nat.
+Proof.
+  induction l as [|y l IH]; intros n x t H; [destruct n; discriminate H|].
+  destruct n as [|n]; cbn [skipn] in H.
+  - injection H as -> ->. cbn. repeat split; lia.
+  - destruct (IH n x t H) as (A & B & C). cbn [nth_error skipn length]. repeat split; [exact A|exact B|lia].
+Qed.
+
+Lemma yielded_cons r t : yielded (r :: t) = if is_item r then r :: yielded t else yielded t.
+Proof. reflexivity. Qed.
+
+Lemma flat_map_set_nth {X Y} (f : X -> list Y) (l : list X) : forall i x old,
+  nth_error l i = Some old -> f old = [] ->
+  Permutation (flat_map f (set_nth l i x)) (f x ++ flat_map f l).
+Proof.
+  induction l as [|y l IH]; intros i x old Hn Ho; [destruct i; discriminate Hn|].
+  destruct i as [|i]; cbn [nth_error] in Hn.
+  - injection Hn as ->. cbn [set_nth flat_map]. rewrite Ho. reflexivity.
+  - cbn [set_nth flat_map]. rewrite (IH i x old Hn Ho). rewrite !app_assoc. apply Permutation_app_tail. apply Permutation_app_comm.
+Qed.
+
+Lemma flat_map_set_nth_remove {X Y} (f : X -> list Y) (l : list X) : forall i x old,
+  nth_error l i = Some old -> f x = [] ->
+  Permutation (f old ++ flat_map f (set_nth l i x)) (flat_map f l).
+Proof.
+  induction l as [|y l IH]; intros i x old Hn Hx; [destruct i; discriminate Hn|].
+  destruct i as [|i]; cbn [nth_error] in Hn.
+  - injection Hn as ->. cbn [set_nth flat_map]. rewrite Hx. reflexivity.
+  - cbn [set_nth flat_map]. rewrite <- (IH i x old Hn Hx). rewrite !app_assoc. apply Permutation_app_tail. apply Permutation_app_comm.
+Qed.
+
+Lemma flat_map_set_nth_same {X Y} (f : X -> list Y) (l : list X) : forall i x old,
+  nth_error l i = Some old -> f x = f old -> flat_map f (set_nth l i x) = flat_map f l.
+Proof.
+  induction l as [|y l IH]; intros i x old Hn Hx; [destruct i; discriminate Hn|].
+  destruct i as [|i]; cbn [nth_error] in Hn.
+  - injection Hn as ->. cbn [set_nth flat_map]. rewrite Hx. reflexivity.
+  - cbn [set_nth flat_map]. rewrite (IH i x old Hn Hx). reflexivity.
+Qed.
+
+(* ---- the invariant is a property of a view of the state ---- *)
+Definition fview (s : state) :=
+  (s_ridx s, s_rtodo s, s_rst s, s_rpc s, s_pq s, flat_map held_item (s_hs s), s_hq s, s_seen s, s_hashes s, s_mpc s).
+
+Lemma FInv_of_fview c s s' : fview s' = fview s -> FInv c s -> FInv c s'.
+Proof.
+  unfold fview. intros E Hinv. injection E as E1 E2 E3 E4 E5 E6 E7 E8 E9 E10.
+  assert (Ef : flight s' = flight s) by (unfold flight; rewrite E5, E6, E7; reflexivity).
+  assert (Ei : indices s' = indices s) by (unfold indices; rewrite Ef, E8; reflexivity).
+  destruct Hinv. constructor; rewrite ?E1, ?E2, ?E3, ?E4, ?Ei, ?Ef, ?E8, ?E9, ?E10; assumption.
+Qed.
+
+Lemma FInv_init c : FInv c (init c).
+Proof.
+  constructor; cbn.
+  - unfold zlen. lia.
+  - right. reflexivity.
+  - discriminate.
+  - discriminate.
+  - discriminate.
+  - intros _. split; reflexivity.
+  - intros t [E|E]; [injection E as <-; split; [lia|reflexivity]|discriminate E].
+  - unfold indices, flight. cbn. replace (flat_map held_item (map (fun _ : nat => (TNew, HGet)) (seq 0 (cf_hashers c)))) with (@nil qitem).
+    + constructor.
+    + induction (seq 0 (cf_hashers c)); [reflexivity|cbn; assumption].
+  - unfold indices, flight. cbn. replace (flat_map held_item (map (fun _ : nat => (TNew, HGet)) (seq 0 (cf_hashers c)))) with (@nil qitem).
+    + constructor.
+    + induction (seq 0 (cf_hashers c)); [reflexivity|cbn; assumption].
+  - unfold flight. cbn. replace (flat_map held_item (map (fun _ : nat => (TNew, HGet)) (seq 0 (cf_hashers c)))) with (@nil qitem).
+    + constructor.
+    + induction (seq 0 (cf_hashers c)); [reflexivity|cbn; assumption].
+  - constructor.
+  - constructor.
+Qed.
+
+(* ---- generic preservation: the reader, the collected pieces and the hashes are untouched and
+        the items in flight are rearranged (possibly some vanish, possibly markers are added) ---- *)
+Lemma NoDup_app_r {X} (a b : list X) : NoDup (a ++ b) -> NoDup b.
+Proof. induction a as [|x a IH]; cbn; [auto|]. intros H. inversion H; subst. apply IH. assumption. Qed.
+
+Lemma FInv_flight c s s' extra :
+  FInv c s ->
+  s_ridx s' = s_ridx s -> s_rtodo s' = s_rtodo s -> s_rst s' = s_rst s -> s_rpc s' = s_rpc s ->
+  s_seen s' = s_seen s -> s_hashes s' = s_hashes s -> s_mpc s' = s_mpc s ->
+  Permutation (extra ++ flat_map qidx (flight s')) (flat_map qidx (flight s)) ->
+  Forall (payload_ok (yielded (cf_items c))) (flight s') ->
+  FInv c s'.
+Proof.
+  intros Hinv E1 E2 E3 E4 E5 E6 E7 Hp Hpay.
+  assert (Hperm : Permutation (extra ++ indices s') (indices s)).
+  { unfold indices. rewrite E5, app_assoc. apply Permutation_app_tail. exact Hp. }
+  pose proof (fi_nodup c s Hinv) as F. pose proof (fi_bound c s Hinv) as G.
+  destruct Hinv. constructor; rewrite ?E1, ?E2, ?E3, ?E4, ?E5, ?E6, ?E7; try assumption.
+  - apply (NoDup_app_r extra). apply (Permutation_NoDup (Permutation_sym Hperm)). exact F.
+  - apply (Permutation_Forall (Permutation_sym Hperm)) in G. apply Forall_app in G as [_ G]. exact G.
+Qed.
+
+Lemma qidx_app a b : flat_map qidx (a ++ b) = flat_map qidx a ++ flat_map qidx b.
+Proof. apply flat_map_app. Qed.
+
+(* ---- janitor ---- *)
+Lemma step_janitor_FInv c s a : FInv c s -> FInv c (step_janitor s a).
+Proof.
+  intros Hinv. unfold step_janitor. destruct (s_jpc s) as [|[|t r]|[|t r]| |];
+    try (apply (FInv_of_fview c s); [reflexivity|exact Hinv]).
+  - destruct a; destruct (s_tracked s); apply (FInv_of_fview c s); try reflexivity; exact Hinv.
+  - destruct (is_alive s t); [|destruct r]; apply (FInv_of_fview c s); try reflexivity; exact Hinv.
+  - destruct r; apply (FInv_of_fview c s); try reflexivity; exact Hinv.
+  - (* hash_queue.put(QUEUE_CLOSED) *)
+    apply (FInv_flight c s _ [] Hinv); try reflexivity; cbn [upd_janitor set_hq flight s_pq s_hs s_hq app].
+    + unfold flight. rewrite !qidx_app. cbn. rewrite app_nil_r. reflexivity.
+    + pose proof (fi_payload c s Hinv) as Hp. unfold flight in *. rewrite !app_assoc. apply Forall_app. split; [rewrite <- app_assoc; exact Hp|repeat constructor].
+Qed.
+
+(* ---- hashers ---- *)
+Lemma held_none_HGet st : held_item (st, HGet) = []. Proof. reflexivity. Qed.
+
+Lemma step_hasher_FInv c s i a : FInv c s -> FInv c (step_hasher s i a).
+Proof.
+  intros Hinv. unfold step_hasher. destruct (nth_error (s_hs s) i) as [[[] pc]|] eqn:En; try exact Hinv.
+  pose proof (fi_payload c s Hinv) as Hpay. unfold flight in Hpay.
+  destruct pc.
+  - (* piece_queue.get *)
+    destruct a.
+    + destruct (s_pq s) as [|[|idx h exc] r] eqn:Epq; [exact Hinv| |].
+      * (* QUEUE_CLOSED *)
+        apply (FInv_flight c s _ [] Hinv); try reflexivity; unfold upd_hasher, flight; cbn [set_hs set_pq s_pq s_hs s_hq app].
+        -- rewrite Epq. rewrite (flat_map_set_nth_same held_item _ i _ (TRunning, HGet) En) by reflexivity. reflexivity.
+        -- rewrite (flat_map_set_nth_same held_item _ i _ (TRunning, HGet) En) by reflexivity.
+           inversion Hpay; assumption.
+      * (* a piece: it moves from the queue into the hasher's hands *)
+        inversion Hpay as [|x l Hx Hrest]; subst.
+        set (out := match exc with _ :: _ => QPiece idx None exc | [] => QPiece idx h [] end).
+        assert (Hout : out = QPiece idx h exc).
+        { unfold out. pose proof Hx as Hx0. cbn [payload_ok] in Hx0. destruct Hx0 as [_ Hx0]. destruct (nth_error (yielded (cf_items c)) (Z.to_nat idx)) as [[]|]; try contradiction; destruct Hx0 as [-> ->]; try reflexivity; destruct es; reflexivity. }
+        apply (FInv_flight c s _ [] Hinv); try reflexivity; unfold upd_hasher, flight; cbn [set_hs set_pq s_pq s_hs s_hq app].
+        -- rewrite Epq. rewrite !qidx_app.
+           rewrite (flat_map_set_nth held_item _ i (TRunning, HPutHash out) (TRunning, HGet) En) by reflexivity.
+           cbn [held_item snd flat_map app qidx]. fold out. rewrite Hout. cbn [qidx app].
+           apply Permutation_sym. apply Permutation_cons_app. reflexivity.
+        -- apply Forall_app in Hrest as [Hr Hrest']. apply Forall_app. split; [exact Hr|].
+           apply Forall_app in Hrest' as [Hh Hq]. apply Forall_app. split; [|exact Hq].
+           apply (Permutation_Forall (Permutation_sym (flat_map_set_nth held_item _ i (TRunning, HPutHash out) (TRunning, HGet) En eq_refl))).
+           cbn [held_item snd app]. fold out. constructor; [rewrite Hout; exact Hx|exact Hh].
+    + (* timeout *)
+      destruct (Nat.eqb i 0).
+      * apply (FInv_of_fview c s); [reflexivity|exact Hinv].
+      * apply (FInv_of_fview c s); [|exact Hinv]. unfold fview, upd_hasher. cbn [set_hs set_now s_ridx s_rtodo s_rst s_rpc s_pq s_hs s_hq s_seen s_hashes].
+        rewrite (flat_map_set_nth_same held_item _ i _ (TRunning, HGet) En) by reflexivity. reflexivity.
+  - (* hash_queue.put: the piece moves on *)
+    apply (FInv_flight c s _ [] Hinv); try reflexivity; unfold upd_hasher, flight; cbn [set_hs set_hq s_pq s_hs s_hq app].
+    + rewrite !qidx_app. apply Permutation_app_head.
+      rewrite <- (flat_map_set_nth_remove held_item (s_hs s) i (TRunning, HGet) (TRunning, HPutHash it) En eq_refl).
+      cbn [held_item snd]. rewrite !qidx_app. cbn [flat_map app]. rewrite app_nil_r.
+      rewrite <- app_assoc. rewrite (app_assoc _ (flat_map qidx (s_hq s)) (qidx it)). apply Permutation_app_comm.
+    + apply Forall_app in Hpay as [Hp Hrest]. apply Forall_app in Hrest as [Hh Hq].
+      pose proof (Permutation_Forall (Permutation_sym (flat_map_set_nth_remove held_item (s_hs s) i (TRunning, HGet) (TRunning, HPutHash it) En eq_refl)) Hh) as Hh'.
+      cbn [held_item snd app] in Hh'. inversion Hh' as [|x l Hit Hh'']; subst.
+      apply Forall_app. split; [exact Hp|]. apply Forall_app. split; [exact Hh''|]. apply Forall_app. split; [exact Hq|repeat constructor; exact Hit].
+  - (* piece_queue.put(QUEUE_CLOSED) *)
+    apply (FInv_flight c s _ [] Hinv); try reflexivity; unfold upd_hasher, flight; cbn [set_hs set_pq s_pq s_hs s_hq app].
+    + rewrite (flat_map_set_nth_same held_item _ i _ (TRunning, HRequeue) En) by reflexivity.
+      rewrite !qidx_app. cbn [flat_map qidx app]. rewrite app_nil_r. reflexivity.
+    + rewrite (flat_map_set_nth_same held_item _ i _ (TRunning, HRequeue) En) by reflexivity.
+      apply Forall_app in Hpay as [Hp Hrest]. rewrite <- app_assoc. apply Forall_app. split; [exact Hp|]. constructor; [exact I|exact Hrest].
+  - apply (FInv_of_fview c s); [|exact Hinv]. unfold fview, upd_hasher. cbn [set_hs set_final s_ridx s_rtodo s_rst s_rpc s_pq s_hs s_hq s_seen s_hashes].
+    rewrite (flat_map_set_nth_same held_item _ i _ (TRunning, HSet) En) by reflexivity. reflexivity.
+  - exact Hinv.
+Qed.
+
+(* ---- reader ---- *)
+Lemma reader_next_fields s todo idx :
+  let s' := reader_next s todo idx in
+  s_ridx s' = idx /\ s_rst s' = TRunning /\ s_pq s' = s_pq s /\ s_hs s' = s_hs s /\ s_hq s' = s_hq s /\
+  s_seen s' = s_seen s /\ s_hashes s' = s_hashes s /\
+  (s_rtodo s' = [] \/ s_rtodo s' = todo) /\
+  (s_rpc s' = RStopRead -> s_rtodo s' = todo /\ exists r rest, todo = r :: rest /\ is_item r = true) /\
+  (s_rpc s' = RClock -> s_rtodo s' = todo /\ exists rest, todo = ROom :: rest) /\
+  (forall it, s_rpc s' <> RPut it).
+Proof.
+  unfold reader_next. destruct todo as [|[h|es| | |e] rest]; cbn;
+    repeat split; try reflexivity; try (right; reflexivity); try (left; reflexivity); try discriminate;
+    try (intros _; eexists; eexists; split; reflexivity); try (intros _; eexists; reflexivity);
+    try (eexists; eexists; split; reflexivity); try (eexists; reflexivity).
+Qed.
+
+Lemma yielded_skipn_head c s r rest :
+  s_rtodo s = r :: rest -> is_item r = true ->
+  (s_rtodo s = [] \/ yielded (s_rtodo s) = skipn (Z.to_nat (s_ridx s)) (yielded (cf_items c))) ->
+  nth_error (yielded (cf_items c)) (Z.to_nat (s_ridx s)) = Some r /\
+  yielded rest = skipn (S (Z.to_nat (s_ridx s))) (yielded (cf_items c)) /\
+  (Z.to_nat (s_ridx s) < length (yielded (cf_items c)))%nat.
+Proof.
+  intros Et Hi [C|Hy]; [rewrite Et in C; discriminate|].
+  rewrite Et, yielded_cons, Hi in Hy. symmetry in Hy. destruct (skipn_cons_nth _ _ _ _ Hy) as (A & B & C).
+  repeat split; [exact A|symmetry; exact B|exact C].
+Qed.
+
+Lemma indices_put_pq s it :
+  indices (set_pq s (s_pq s ++ [it])) = flat_map qidx (s_pq s) ++ qidx it ++ flat_map qidx (flat_map held_item (s_hs s) ++ s_hq s) ++ s_seen s.
+Proof.
+  unfold indices, flight. cbn [set_pq s_pq s_hs s_hq s_seen]. rewrite !qidx_app. cbn [flat_map]. rewrite app_nil_r, <- !app_assoc. reflexivity.
+Qed.
+
+Lemma start_ok_running c s : FInv c s -> s_rst s = TRunning ->
+  forall t, s_mpc s = MAlive t \/ s_mpc s = MStart t -> 1 <= t /\ (t = 1 -> False).
+Proof.
+  intros Hinv Hrun t Ht. destruct (fi_start c s Hinv t Ht) as [A B]. split; [exact A|].
+  intros E. rewrite (B E) in Hrun. discriminate.
+Qed.
+
+Lemma reader_next_mpc s todo idx : s_mpc (reader_next s todo idx) = s_mpc s.
+Proof. unfold reader_next. destruct todo as [|[]]; reflexivity. Qed.
+
+Lemma step_reader_FInv c s : s_rst s = TRunning -> FInv c s -> FInv c (step_reader s).
+Proof.
+  intros Hrun Hinv. pose proof (start_ok_running c s Hinv Hrun) as Hstart.
+  assert (Hst : forall rst, forall t, s_mpc s = MAlive t \/ s_mpc s = MStart t -> 1 <= t /\ (t = 1 -> rst = TNew)).
+  { intros rst t Ht. destruct (Hstart t Ht) as [A B]. split; [exact A|intros E; destruct (B E)]. } unfold step_reader. destruct (s_rpc s) as [|q| |exc|] eqn:Epc.
+  - (* read the stop flag *)
+    destruct (s_stop s).
+    + destruct Hinv. constructor; cbn; try assumption; try discriminate; try apply Hst; [left; reflexivity].
+    + destruct (fi_head c s Hinv Hrun Epc) as (r & rest & Et & Hi).
+      destruct (yielded_skipn_head c s r rest Et Hi (fi_todo c s Hinv)) as (Hn & _ & _).
+      assert (Hput : forall h exc, payload_ok (yielded (cf_items c)) (QPiece (s_ridx s) h exc) ->
+                FInv c (upd_reader s TRunning (RPut (QPiece (s_ridx s) h exc)) (r :: rest) (s_ridx s) (s_rexc s))).
+      { intros h exc Hp. rewrite <- Et. destruct Hinv. constructor; cbn; try assumption; try discriminate; try apply Hst.
+        intros it E. injection E as <-. exists r, rest, h, exc. split; [exact Et|split; [exact Hi|split; [reflexivity|exact Hp]]]. }
+      pose proof (fi_ridx c s Hinv) as Hr.
+      rewrite Et. destruct r; try discriminate Hi; apply Hput; cbn; (split; [lia|]); rewrite Hn; split; reflexivity.
+  - (* piece_queue.put(piece) *)
+    destruct (fi_put c s Hinv q Epc) as (r & rest & h & exc & Et & Hi & -> & Hp).
+    destruct (yielded_skipn_head c s r rest Et Hi (fi_todo c s Hinv)) as (Hn & Hy & Hlt).
+    pose proof (reader_next_fields (set_pq s (s_pq s ++ [QPiece (s_ridx s) h exc])) (tl (s_rtodo s)) (s_ridx s + 1)) as Hf.
+    cbv zeta in Hf. destruct Hf as (F1 & F2 & F3 & F4 & F5 & F6 & F7 & F8 & F9 & F10 & F11).
+    set (s' := reader_next _ _ _) in *.
+    pose proof (fi_ridx c s Hinv) as Hr. pose proof (fi_bound c s Hinv) as Hb. pose proof (fi_nodup c s Hinv) as Hnd.
+    assert (Etl : tl (s_rtodo s) = rest) by (rewrite Et; reflexivity).
+    assert (Hidx : Permutation (indices s') (s_ridx s :: indices s)).
+    { unfold indices, flight. rewrite F3, F4, F5, F6. cbn [set_pq s_pq s_hs s_hq s_seen]. rewrite !qidx_app. cbn [flat_map qidx app].
+      rewrite <- !app_assoc. cbn [app]. apply Permutation_sym. apply Permutation_cons_app. reflexivity. }
+    constructor.
+    + rewrite F1. unfold zlen. lia.
+    + rewrite F1. destruct F8 as [E|E]; [left; exact E|]. right. rewrite E, Etl, Hy. f_equal. lia.
+    + intros _ E. destruct (F9 E) as (E1 & r' & rest' & E2 & E3). exists r', rest'. rewrite E1. split; assumption.
+    + intros it E. exfalso. exact (F11 it E).
+    + intros E. destruct (F10 E) as (E1 & rest' & E2). exists rest'. rewrite E1. exact E2.
+    + rewrite F2. discriminate.
+    + unfold s'. rewrite reader_next_mpc. cbn [set_pq s_mpc]. apply Hst.
+    + apply (Permutation_NoDup (Permutation_sym Hidx)). constructor; [|exact Hnd].
+      intros Hin. rewrite Forall_forall in Hb. specialize (Hb _ Hin). lia.
+    + apply (Permutation_Forall (Permutation_sym Hidx)). rewrite F1. constructor; [lia|]. eapply Forall_impl; [|exact Hb]. cbn. intros a Ha. lia.
+    + unfold flight. rewrite F3, F4, F5. cbn [set_pq s_pq s_hs s_hq]. pose proof (fi_payload c s Hinv) as Hpay. unfold flight in Hpay.
+      rewrite <- app_assoc. apply Forall_app in Hpay as [H1 H2]. apply Forall_app. split; [exact H1|]. constructor; [exact Hp|exact H2].
+    + rewrite F6, F7. exact (fi_hashes c s Hinv).
+    + rewrite F7. exact (fi_hnodup c s Hinv).
+  - (* the out-of-memory handler reads the clock *)
+    destruct (fi_clock c s Hinv Epc) as (rest & Et).
+    assert (Hnext : forall s0, fview s0 = fview s -> FInv c (reader_next s0 (tl (s_rtodo s)) (s_ridx s))).
+    { intros s0 E0. pose proof (reader_next_fields s0 (tl (s_rtodo s)) (s_ridx s)) as Hf. cbv zeta in Hf.
+      destruct Hf as (F1 & F2 & F3 & F4 & F5 & F6 & F7 & F8 & F9 & F10 & F11). set (s' := reader_next _ _ _) in *.
+      unfold fview in E0. injection E0 as G1 G2 G3 G4 G5 G6 G7 G8 G9 G10.
+      assert (Ef : flight s' = flight s) by (unfold flight; rewrite F3, F4, F5, G5, G6, G7; reflexivity).
+      assert (Ei : indices s' = indices s) by (unfold indices; rewrite Ef, F6, G8; reflexivity).
+      assert (Em : s_mpc s' = s_mpc s) by (unfold s'; rewrite reader_next_mpc; exact G10).
+      constructor; rewrite ?F1, ?F2, ?Ei, ?Ef, ?F6, ?F7, ?G8, ?G9, ?Em; try (destruct Hinv; assumption); try apply Hst.
+      - destruct F8 as [E|E]; [left; exact E|]. destruct (fi_todo c s Hinv) as [C|C]; [rewrite Et in C; discriminate|].
+        right. rewrite E. rewrite Et in C. rewrite yielded_cons in C. cbn [is_item] in C. rewrite Et. exact C.
+      - intros _ E. destruct (F9 E) as (E1 & r' & rest' & E2 & E3). exists r', rest'. rewrite E1. split; assumption.
+      - intros it E. exfalso. exact (F11 it E).
+      - intros E. destruct (F10 E) as (E1 & rest' & E2). exists rest'. rewrite E1. exact E2.
+      - discriminate. }
+    destruct (_ >=? _); [destruct (negb _)|].
+    + apply Hnext. reflexivity.
+    + destruct Hinv. constructor; cbn; try assumption; try discriminate; try apply Hst; [left; reflexivity].
+    + apply Hnext. reflexivity.
+  - (* finally: piece_queue.put(QUEUE_CLOSED) *)
+    pose proof (fi_payload c s Hinv) as Hpay. unfold flight in Hpay.
+    assert (Ei : indices (upd_reader (set_pq s (s_pq s ++ [QClosed])) TDone RExit [] (s_ridx s) exc) = indices s).
+    { unfold indices, flight. cbn [upd_reader set_pq s_pq s_hs s_hq s_seen]. rewrite !qidx_app. cbn [flat_map qidx]. rewrite app_nil_r. reflexivity. }
+    destruct Hinv. constructor; rewrite ?Ei; cbn [upd_reader set_pq s_ridx s_rtodo s_rst s_rpc s_seen s_hashes s_mpc]; try assumption; try discriminate; try apply Hst.
+    + left. reflexivity.
+    + unfold flight. cbn [upd_reader set_pq s_pq s_hs s_hq]. rewrite <- app_assoc. apply Forall_app in Hpay as [H1 H2]. apply Forall_app. split; [exact H1|]. constructor; [exact I|exact H2].
+  - exact Hinv.
+Qed.
+
+(* ---- main / collector ---- *)
+Lemma FInv_set_mpc c s pc :
+  FInv c s -> (forall t, pc = MAlive t \/ pc = MStart t -> 1 <= t /\ (t = 1 -> s_rst s = TNew)) -> FInv c (set_mpc s pc).
+Proof. intros Hinv Hpc. destruct Hinv. constructor; cbn [set_mpc s_ridx s_rtodo s_rst s_rpc s_seen s_hashes s_mpc]; assumption. Qed.
+
+Ltac not_start := let t := fresh in let H := fresh in intros t [H|H]; discriminate H.
+
+Lemma FInv_finish_main c s r : FInv c s -> FInv c (finish_main s r).
+Proof. intros Hinv. destruct Hinv. constructor; cbn [finish_main s_ridx s_rtodo s_rst s_rpc s_seen s_hashes s_mpc]; try assumption. not_start. Qed.
+
+Lemma FInv_finish c s o : FInv c s -> FInv c (finish c s o).
+Proof. intros H. unfold finish. destruct o; apply FInv_finish_main; exact H. Qed.
+
+Lemma next_hasher_not_start s o pos : forall t, next_hasher s o pos = MAlive t \/ next_hasher s o pos = MStart t -> 1 <= t /\ (t = 1 -> s_rst s = TNew).
+Proof. unfold next_hasher. destruct (nth_error _ _); not_start. Qed.
+
+Lemma next_to_start_ge c t t' : 1 <= t -> next_to_start c t = Some t' -> 2 <= t'.
+Proof.
+  unfold next_to_start. intros Ht. destruct (t =? 1) eqn:E1; [intros E; injection E as <-; lia|].
+  destruct (t =? 2) eqn:E2; [discriminate|]. destruct (_ <? _); intros E; injection E as <-; lia.
+Qed.
+
+Lemma start_thread_FInv c s t pc : 1 <= t -> (t = 1 -> s_rst s = TNew) -> FInv c s ->
+  (forall t', pc = MAlive t' \/ pc = MStart t' -> 2 <= t') ->
+  FInv c (set_mpc (start_thread s t) pc).
+Proof.
+  intros Ht H1 Hinv Hpc.
+  assert (Hpc' : forall s0 t', pc = MAlive t' \/ pc = MStart t' -> 1 <= t' /\ (t' = 1 -> s_rst s0 = TNew)).
+  { intros s0 t' Hm. pose proof (Hpc t' Hm). split; [lia|intros ->; lia]. }
+  unfold start_thread. destruct (t =? 1) eqn:E1.
+  - (* the reader starts: it fetches its first item *)
+    assert (t = 1) as -> by lia. destruct (fi_new c s Hinv (H1 eq_refl)) as [Er Et].
+    pose proof (reader_next_fields (upd_reader s TRunning RStopRead (s_rtodo s) 0 None) (s_rtodo s) 0) as Hf. cbv zeta in Hf.
+    destruct Hf as (F1 & F2 & F3 & F4 & F5 & F6 & F7 & F8 & F9 & F10 & F11). set (s' := reader_next _ _ _) in *.
+    assert (Ef : flight (set_mpc s' pc) = flight s) by (unfold flight; cbn [set_mpc s_pq s_hs s_hq]; rewrite F3, F4, F5; reflexivity).
+    assert (Ei : indices (set_mpc s' pc) = indices s) by (unfold indices; rewrite Ef; cbn [set_mpc s_seen]; rewrite F6; reflexivity).
+    constructor; rewrite ?Ei, ?Ef; cbn [set_mpc s_ridx s_rtodo s_rst s_rpc s_seen s_hashes s_mpc]; rewrite ?F1, ?F2, ?F6, ?F7.
+    + pose proof (fi_ridx c s Hinv). lia.
+    + destruct F8 as [E|E]; [left; exact E|]. right. rewrite E, Et. reflexivity.
+    + intros _ E. destruct (F9 E) as (E0 & r' & rest' & E2 & E3). exists r', rest'. rewrite E0. split; assumption.
+    + intros it E. exfalso. exact (F11 it E).
+    + intros E. destruct (F10 E) as (E0 & rest' & E2). exists rest'. rewrite E0. exact E2.
+    + discriminate.
+    + intros t' Hm. pose proof (Hpc t' Hm). split; [lia|intros ->; lia].
+    + exact (fi_nodup c s Hinv).
+    + pose proof (fi_bound c s Hinv) as Hb. rewrite Er in Hb. exact Hb.
+    + exact (fi_payload c s Hinv).
+    + exact (fi_hashes c s Hinv).
+    + exact (fi_hnodup c s Hinv).
+  - apply FInv_set_mpc; [|apply Hpc']. destruct (t =? 2) eqn:E2.
+    + apply (FInv_of_fview c s); [reflexivity|exact Hinv].
+    + unfold upd_hasher. destruct (nth_error (s_hs s) (hasher_index t)) as [old|] eqn:En.
+      * apply (FInv_flight c s _ (flat_map qidx (held_item old)) Hinv); try reflexivity; unfold flight; cbn [set_hs s_pq s_hs s_hq].
+        -- rewrite !qidx_app.
+           rewrite <- (flat_map_set_nth_remove held_item (s_hs s) (hasher_index t) (TRunning, HGet) old En eq_refl).
+           rewrite !qidx_app. rewrite !app_assoc. apply Permutation_app_tail. apply Permutation_app_tail. apply Permutation_app_comm.
+        -- pose proof (fi_payload c s Hinv) as Hpay. unfold flight in Hpay.
+           apply Forall_app in Hpay as [Hp Hrest]. apply Forall_app in Hrest as [Hh Hq].
+           pose proof (Permutation_Forall (Permutation_sym (flat_map_set_nth_remove held_item (s_hs s) (hasher_index t) (TRunning, HGet) old En eq_refl)) Hh) as Hh'.
+           apply Forall_app in Hh' as [_ Hh']. apply Forall_app. split; [exact Hp|]. apply Forall_app. split; [exact Hh'|exact Hq].
+      * replace (set_nth (s_hs s) (hasher_index t) (TRunning, HGet)) with (s_hs s).
+        -- apply (FInv_of_fview c s); [reflexivity|exact Hinv].
+        -- clear -En. revert En. generalize (hasher_index t). induction (s_hs s) as [|y l IH]; intros [|n] E; cbn in *; try discriminate; try reflexivity.
+           f_equal. apply IH. exact E.
+Qed.
+
+Lemma NoDup_snoc {X} (l : list X) x : ~ In x l -> NoDup l -> NoDup (l ++ [x]).
+Proof.
+  induction l as [|y l IH]; intros Hni Hnd; cbn; [constructor; [intros []|constructor]|].
+  inversion Hnd; subst. constructor.
+  - intros Hi. apply in_app_or in Hi as [Hi|[Hi|[]]]; [contradiction|]. subst y. apply Hni. left. reflexivity.
+  - apply IH; [intros Hi; apply Hni; right; exact Hi|assumption].
+Qed.
+
+Lemma collect_item_fview c s idx h exc :
+  (s_ridx (collect_item c s idx h exc), s_rtodo (collect_item c s idx h exc), s_rst (collect_item c s idx h exc), s_rpc (collect_item c s idx h exc),
+   s_pq (collect_item c s idx h exc), s_hs (collect_item c s idx h exc), s_hq (collect_item c s idx h exc), s_seen (collect_item c s idx h exc),
+   s_hashes (collect_item c s idx h exc)) =
+  (s_ridx s, s_rtodo s, s_rst s, s_rpc s, s_pq s, s_hs s, s_hq s, s_seen s, s_hashes s) /\
+  (forall t, s_mpc (collect_item c s idx h exc) <> MAlive t /\ s_mpc (collect_item c s idx h exc) <> MStart t).
+Proof.
+  unfold collect_item. destruct (_ || _); [|split; [reflexivity|intros t; split; discriminate]].
+  destruct (cf_verify c); destruct exc; destruct (has_user_cb c); try destruct (mismatch c idx h); try destruct (user_cb c _) as [[|]|];
+    (split; [reflexivity|intros t; split; discriminate]).
+Qed.
+
+Lemma In_indices_hq s q i : In q (s_hq s) -> In i (qidx q) -> In i (flat_map qidx (flight s)).
+Proof.
+  intros Hq Hi. unfold flight. rewrite !qidx_app. apply in_or_app. right. apply in_or_app. right.
+  apply in_flat_map. exists q. split; assumption.
+Qed.
+
+Lemma step_main_FInv c s inc : FInv c s -> FInv c (step_main c s inc).
+Proof.
+  intros Hinv. unfold step_main. destruct (s_mpc s) eqn:Empc.
+  - (* is_alive before start *)
+    apply FInv_set_mpc; [exact Hinv|]. intros t0 [E|E]; [discriminate E|]. injection E as <-. apply (fi_start c s Hinv). left. exact Empc.
+  - destruct (fi_start c s Hinv t (or_intror Empc)) as [Ht H1].
+    assert (Hnext : forall t', next_to_start c t = Some t' -> forall t0, MAlive t' = MAlive t0 \/ MAlive t' = MStart t0 -> 2 <= t0).
+    { intros t' E t0 [E0|E0]; [injection E0 as <-; exact (next_to_start_ge c t t' Ht E)|discriminate E0]. }
+    destruct (refused c t).
+    + destruct ((t =? 1) || (t =? 2) || (t =? 3)); [apply FInv_finish_main; exact Hinv|].
+      destruct (next_to_start c t) as [t'|] eqn:En; apply FInv_set_mpc; try exact Hinv; [|not_start].
+      intros t0 Hm. pose proof (Hnext t' eq_refl t0 Hm). split; [lia|intros ->; lia].
+    + destruct (next_to_start c t) as [t'|] eqn:En; apply start_thread_FInv; try assumption; [exact (Hnext t' eq_refl)|].
+      intros t0 [E|E]; discriminate E.
+  - (* hash_queue.get() *)
+    destruct (s_hq s) as [|[|idx h exc] r] eqn:Ehq; [exact Hinv| |].
+    + apply FInv_set_mpc; [|not_start]. apply (FInv_flight c s _ [] Hinv); try reflexivity; unfold flight; cbn [set_hq s_pq s_hs s_hq app].
+      * rewrite Ehq, !qidx_app. reflexivity.
+      * pose proof (fi_payload c s Hinv) as Hpay. unfold flight in Hpay. rewrite Ehq in Hpay.
+        apply Forall_app in Hpay as [Hp Hrest]. apply Forall_app in Hrest as [Hh Hq]. inversion Hq; subst.
+        apply Forall_app. split; [exact Hp|]. apply Forall_app. split; assumption.
+    + (* a piece arrives *)
+      pose proof (fi_nodup c s Hinv) as Hnd. pose proof (fi_payload c s Hinv) as Hpay. pose proof (fi_bound c s Hinv) as Hb.
+      assert (Hin : In idx (flat_map qidx (flight s))) by (apply (In_indices_hq s (QPiece idx h exc)); [rewrite Ehq; left; reflexivity|left; reflexivity]).
+      assert (Hnotseen : ~ In idx (s_seen s)).
+      { intros Hs.
+        pose proof (fi_nodup c s Hinv) as Hnd2. unfold indices in Hnd2.
+        apply in_split in Hin as (l1 & l2 & E). rewrite E in Hnd2. rewrite <- app_assoc in Hnd2. cbn [app] in Hnd2.
+        apply NoDup_remove_2 in Hnd2. apply Hnd2. apply in_or_app. right. apply in_or_app. right. exact Hs. }
+      cbn [set_hq s_seen].
+      destruct (existsb (Z.eqb idx) (s_seen s)) eqn:Eex.
+      { exfalso. apply existsb_exists in Eex as (x & Hx & Ex). apply Hnotseen. replace idx with x by lia. exact Hx. }
+      apply FInv_set_mpc; [|not_start].
+      assert (Hitem : payload_ok (yielded (cf_items c)) (QPiece idx h exc)).
+      { unfold flight in Hpay. rewrite Ehq in Hpay. apply Forall_app in Hpay as [_ Hrest]. apply Forall_app in Hrest as [_ Hq]. inversion Hq; assumption. }
+      assert (Hperm : Permutation (flat_map qidx (s_pq s ++ flat_map held_item (s_hs s) ++ r) ++ s_seen s ++ [idx]) (indices s)).
+      { unfold indices, flight. rewrite Ehq, !qidx_app. cbn [flat_map qidx app]. rewrite <- !app_assoc.
+        apply Permutation_app_head. apply Permutation_app_head. cbn [app].
+        rewrite app_assoc. apply Permutation_sym. apply Permutation_cons_app. rewrite <- app_assoc, app_nil_r. reflexivity. }
+      set (hashes' := match exc with [] => match h with Some hv => s_hashes s ++ [(idx, hv)] | None => s_hashes s end | _ :: _ => s_hashes s end).
+      destruct Hinv. constructor; cbn [upd_collector set_hq s_ridx s_rtodo s_rst s_rpc s_seen s_hashes s_mpc]; try assumption.
+      * unfold indices, flight. cbn [upd_collector set_hq s_pq s_hs s_hq s_seen]. apply (Permutation_NoDup (Permutation_sym Hperm)). exact Hnd.
+      * unfold indices, flight. cbn [upd_collector set_hq s_pq s_hs s_hq s_seen]. apply (Permutation_Forall (Permutation_sym Hperm)). exact Hb.
+      * unfold flight in *. cbn [upd_collector set_hq s_pq s_hs s_hq]. rewrite Ehq in Hpay.
+        apply Forall_app in Hpay as [Hp Hrest]. apply Forall_app in Hrest as [Hh Hq]. inversion Hq; subst.
+        apply Forall_app. split; [exact Hp|]. apply Forall_app. split; assumption.
+      * fold hashes'. assert (Hold : Forall (fun ih : Z * Z => In (fst ih) (s_seen s ++ [idx]) /\ nth_error (yielded (cf_items c)) (Z.to_nat (fst ih)) = Some (RPiece (snd ih))) (s_hashes s)).
+        { eapply Forall_impl; [|exact fi_hashes0]. cbn. intros a [A B]. split; [apply in_or_app; left; exact A|exact B]. }
+        unfold hashes'. destruct exc; [|exact Hold]. destruct h as [hv|]; [|exact Hold].
+        apply Forall_app. split; [exact Hold|]. constructor; [|constructor]. cbn [fst snd]. split; [apply in_or_app; right; left; reflexivity|].
+        cbn [payload_ok] in Hitem. destruct Hitem as [_ Hitem]. destruct (nth_error _ _) as [[x|es| | |e]|]; try contradiction; destruct Hitem as [E1 E2]; try discriminate E1.
+        injection E1 as ->. reflexivity.
+      * fold hashes'. unfold hashes'. destruct exc; [|exact fi_hnodup0]. destruct h as [hv|]; [|exact fi_hnodup0].
+        rewrite map_app. cbn [map fst].
+        assert (Hni : ~ In idx (map fst (s_hashes s))).
+        { intros Hi. apply in_map_iff in Hi as ([i0 h0] & E & Hi). cbn in E. subst i0. rewrite Forall_forall in fi_hashes0. destruct (fi_hashes0 _ Hi) as [A _]. exact (Hnotseen A). }
+        apply NoDup_snoc; assumption.
+  - (* the clock read and the callback *)
+    destruct (collect_item_fview c (set_now s (s_now s + inc)) idx h exc) as [Ev Hm].
+    injection Ev as E1 E2 E3 E4 E5 E6 E7 E8 E9. set (s' := collect_item _ _ _ _ _) in *.
+    assert (Ef : flight s' = flight s) by (unfold flight; rewrite E5, E6, E7; reflexivity).
+    assert (Ei : indices s' = indices s) by (unfold indices; rewrite Ef, E8; reflexivity).
+    destruct Hinv. constructor; rewrite ?E1, ?E2, ?E3, ?E4, ?Ei, ?Ef, ?E8, ?E9; try assumption.
+    intros t [E|E]; exfalso; [exact (proj1 (Hm t) E)|exact (proj2 (Hm t) E)].
+  - destruct (s_stop s); [destruct a|]; apply FInv_set_mpc; try exact Hinv; not_start.
+  - assert (Hs : FInv c (set_stop s true)) by (apply (FInv_of_fview c s); [reflexivity|exact Hinv]).
+    destruct a; apply FInv_set_mpc; try exact Hs; not_start.
+  - destruct (is_alive s 1); apply FInv_set_mpc; try exact Hinv; try not_start. apply next_hasher_not_start.
+  - apply FInv_set_mpc; [exact Hinv|apply next_hasher_not_start].
+  - destruct (is_alive s t); apply FInv_set_mpc; try exact Hinv; try not_start. apply next_hasher_not_start.
+  - apply FInv_set_mpc; [exact Hinv|apply next_hasher_not_start].
+  - destruct (is_alive s 2); [apply FInv_set_mpc; [exact Hinv|not_start]|apply FInv_finish; exact Hinv].
+  - apply FInv_finish. exact Hinv.
+  - exact Hinv.
+Qed.
+
+(* ---- the invariant holds in every reachable state ---- *)
+Lemma enabled_reader_running c s a : enabled c s 1 a = true -> s_rst s = TRunning.
+Proof.
+  unfold enabled. intros H. apply existsb_exists in H as ([t a'] & Hin & Ht). cbn [fst snd] in Ht.
+  apply andb_true_iff in Ht as [Ht _]. assert (t = 1) as -> by lia. unfold options in Hin.
+  apply in_app_or in Hin as [Hin|Hin]; [apply in_map_iff in Hin as (x & E & _); discriminate E|].
+  apply in_app_or in Hin as [Hin|Hin].
+  - apply in_map_iff in Hin as (x & _ & Hx). unfold reader_enabled in Hx. destruct (s_rst s); [destruct Hx|reflexivity|destruct Hx].
+  - apply in_app_or in Hin as [Hin|Hin]; [apply in_map_iff in Hin as (x & E & _); discriminate E|].
+    apply in_flat_map in Hin as (i & _ & Hi). apply in_map_iff in Hi as (x & E & _). pose proof (f_equal fst E) as E1. cbn [fst] in E1. unfold hasher_tid in E1. lia.
+Qed.
+
+Theorem flow_invariant c s : reach c s -> FInv c s.
+Proof.
+  induction 1 as [|s t a inc Hr IH Hen Hinc]; [apply FInv_init|].
+  unfold step. destruct (t =? 0) eqn:E0; [apply step_main_FInv; exact IH|].
+  destruct (t =? 1) eqn:E1.
+  - assert (t = 1) as -> by lia. pose proof (enabled_reader_running c s a Hen) as Hrun.
+    destruct (s_rpc s); try (apply step_reader_FInv; assumption).
+    apply step_reader_FInv; [exact Hrun|]. apply (FInv_of_fview c s); [reflexivity|exact IH].
+  - destruct (t =? 2); [apply step_janitor_FInv|apply step_hasher_FInv]; exact IH.
+Qed.
+
+(* ---- a run that returns True has stored the digests of the pieces in order ---- *)
+Definition RInv (c : config) (s : state) : Prop :=
+  (s_result s <> None -> s_mpc s = MDone) /\
+  (s_result s = Some ResTrue -> cf_verify c = None -> zlen (sorted_hashes (s_hashes s)) = cf_total c).
+
+Definition rview (s : state) := (s_result s, s_hashes s, s_mpc s).
+
+Lemma step_reader_rview s : rview (step_reader s) = rview s.
+Proof.
+  assert (Hn : forall s todo idx, rview (reader_next s todo idx) = rview s) by (intros s0 todo idx; unfold reader_next; destruct todo as [|[]]; reflexivity).
+  unfold step_reader. destruct (s_rpc s).
+  - destruct (s_stop s); [reflexivity|]. destruct (s_rtodo s) as [|[]]; reflexivity.
+  - rewrite Hn. reflexivity.
+  - destruct (_ >=? _); [destruct (negb _)|]; try rewrite Hn; reflexivity.
+  - reflexivity.
+  - reflexivity.
+Qed.
+Lemma step_hasher_rview s i a : rview (step_hasher s i a) = rview s.
+Proof.
+  unfold step_hasher. destruct (nth_error (s_hs s) i) as [[[] pc]|]; try reflexivity.
+  destruct pc; try reflexivity. destruct a; [destruct (s_pq s) as [|[] r]; reflexivity|destruct (Nat.eqb i 0); reflexivity].
+Qed.
+Lemma step_janitor_rview s a : rview (step_janitor s a) = rview s.
+Proof.
+  unfold step_janitor. destruct (s_jpc s) as [|[|t r]|[|t r]| |]; try reflexivity.
+  - destruct a; destruct (s_tracked s); reflexivity.
+  - destruct (is_alive s t); [reflexivity|destruct r; reflexivity].
+  - destruct r; reflexivity.
+Qed.
+
+Lemma RInv_of_rview c s s' : rview s' = rview s -> RInv c s -> RInv c s'.
+Proof. unfold rview, RInv. intros E H. injection E as E1 E2 E3. rewrite E1, E2, E3. exact H. Qed.
+
+Lemma collect_item_result c s idx h exc :
+  s_result (collect_item c s idx h exc) = s_result s /\ s_hashes (collect_item c s idx h exc) = s_hashes s /\ s_mpc (collect_item c s idx h exc) <> MDone.
+Proof.
+  unfold collect_item. destruct (_ || _); [|repeat split; try reflexivity; cbn; discriminate].
+  destruct (cf_verify c); destruct exc; destruct (has_user_cb c); try destruct (mismatch c idx h); try destruct (user_cb c _) as [[|]|];
+    (repeat split; try reflexivity; cbn; discriminate).
+Qed.
+
+Lemma start_thread_rview s t : rview (start_thread s t) = rview s.
+Proof.
+  unfold start_thread. destruct (t =? 1); [|destruct (t =? 2); reflexivity].
+  unfold reader_next. destruct (s_rtodo s) as [|[]]; reflexivity.
+Qed.
+
+Lemma step_main_RInv c s inc : RInv c s -> RInv c (step_main c s inc).
+Proof.
+  intros Hinv0. pose proof Hinv0 as [H1 H2].
+  assert (Hnone : s_mpc s <> MDone -> s_result s = None).
+  { intros Hm. destruct (s_result s) eqn:E; [|reflexivity]. exfalso. apply Hm. apply H1. discriminate. }
+  assert (Hkeep : forall s' , s_result s' = s_result s -> s_mpc s' <> MDone -> s_mpc s <> MDone -> RInv c s').
+  { intros s' Er Hm Hm0. split; rewrite Er, (Hnone Hm0); [intros C; exfalso; apply C; reflexivity|discriminate]. }
+  assert (Hfin : forall r, (r = ResTrue -> cf_verify c = None -> zlen (sorted_hashes (s_hashes s)) = cf_total c) -> RInv c (finish_main s r)).
+  { intros r Hr. split; cbn [finish_main s_result s_mpc s_hashes]; [reflexivity|]. intros E. injection E as ->. apply Hr. reflexivity. }
+  assert (Hfinish : forall o, RInv c (finish c s o)).
+  { intros o. unfold finish. destruct o; apply Hfin; [|discriminate]. unfold conclude. intros E Hv. rewrite Hv in E.
+    destruct (zlen (sorted_hashes (s_hashes s)) =? cf_total c) eqn:En; [lia|]. destruct (_ <? _); discriminate E. }
+  unfold step_main. destruct (s_mpc s) eqn:Empc; try (apply Hkeep; [reflexivity|cbn; discriminate|discriminate]).
+  - destruct (refused c t).
+    + destruct ((t =? 1) || (t =? 2) || (t =? 3)); [apply Hfin; discriminate|].
+      destruct (next_to_start c t); apply Hkeep; try reflexivity; cbn; try discriminate; discriminate.
+    + pose proof (start_thread_rview s t) as Ev. unfold rview in Ev. injection Ev as E1 E2 E3.
+      destruct (next_to_start c t); apply Hkeep; cbn [set_mpc s_result s_mpc]; try exact E1; try discriminate; discriminate.
+  - destruct (s_hq s) as [|[|idx h exc] r]; [exact Hinv0| |].
+    + apply Hkeep; [reflexivity|cbn; discriminate|discriminate].
+    + destruct (existsb _ _); apply Hkeep; try reflexivity; cbn; try discriminate; discriminate.
+  - destruct (collect_item_result c (set_now s (s_now s + inc)) idx h exc) as (E1 & E2 & E3).
+    apply Hkeep; [exact E1|exact E3|discriminate].
+  - destruct (s_stop s); [destruct a|]; apply Hkeep; try reflexivity; cbn; try discriminate; discriminate.
+  - destruct a; apply Hkeep; try reflexivity; cbn; try discriminate; discriminate.
+  - destruct (is_alive s 1); apply Hkeep; try reflexivity; try (discriminate); cbn; try discriminate.
+    unfold next_hasher. destruct (nth_error _ _); discriminate.
+  - apply Hkeep; try reflexivity; try (discriminate). cbn. unfold next_hasher. destruct (nth_error _ _); discriminate.
+  - destruct (is_alive s t); apply Hkeep; try reflexivity; try (discriminate); cbn; try discriminate.
+    unfold next_hasher. destruct (nth_error _ _); discriminate.
+  - apply Hkeep; try reflexivity; try (discriminate). cbn. unfold next_hasher. destruct (nth_error _ _); discriminate.
+  - destruct (is_alive s 2); [apply Hkeep; [reflexivity|cbn; discriminate|discriminate]|apply Hfinish].
+  - apply Hfinish.
+  - exact Hinv0.
+Qed.
+
+Theorem result_invariant c s : reach c s -> RInv c s.
+Proof.
+  induction 1 as [|s t a inc Hr IH Hen Hinc]; [split; cbn; [intros C; exfalso; apply C; reflexivity|discriminate]|].
+  unfold step. destruct (t =? 0); [apply step_main_RInv; exact IH|].
+  destruct (t =? 1).
+  - destruct (s_rpc s); try (apply (RInv_of_rview c s); [apply step_reader_rview|exact IH]).
+    apply (RInv_of_rview c s); [rewrite step_reader_rview; reflexivity|exact IH].
+  - destruct (t =? 2); apply (RInv_of_rview c s); try exact IH; [apply step_janitor_rview|apply step_hasher_rview].
+Qed.
+
+(* ---- sorted(hashes) is the list of digests in piece order ---- *)
+From Torf Require Import Tree OrderProofs.
+
+Definition pair_ltb (a b : Z * Z) : bool := (fst a <? fst b) || ((fst a =? fst b) && (snd a <? snd b)).
+
+Lemma pair_ltb_irrefl a : pair_ltb a a = false. Proof. unfold pair_ltb. lia. Qed.
+Lemma pair_ltb_trans a b c : pair_ltb a b = true -> pair_ltb b c = true -> pair_ltb a c = true. Proof. unfold pair_ltb. lia. Qed.
+Lemma pair_ltb_total a b : pair_ltb a b = false -> pair_ltb b a = false -> a = b.
+Proof. unfold pair_ltb. destruct a, b. cbn [fst snd]. intros. f_equal; lia. Qed.
+
+Lemma insert_hash_ins x l : insert_hash x l = ins (fun p : Z * Z => p) pair_ltb x l.
+Proof. induction l as [|y r IH]; cbn [insert_hash ins]; [reflexivity|]. unfold pair_ltb at 1. rewrite IH. reflexivity. Qed.
+
+Lemma sorted_hashes_isort l : sorted_hashes l = map snd (isort (fun p : Z * Z => p) pair_ltb l).
+Proof.
+  unfold sorted_hashes. f_equal.
+Qed.
+
+Definition canon (hs : list Z) : list (Z * Z) := map (fun k => (Z.of_nat k, nth k hs 0)) (seq 0 (length hs)).
+
+Lemma canon_snd hs : map snd (canon hs) = hs.
+Proof.
+  unfold canon. rewrite map_map. cbn [snd]. apply nth_ext with (d := 0) (d' := 0); [rewrite map_length, seq_length; reflexivity|].
+  intros n Hn. rewrite map_length, seq_length in Hn.
+  rewrite (nth_indep _ 0 (nth 0 hs 0)) by (rewrite map_length, seq_length; exact Hn).
+  rewrite (map_nth (fun k => nth k hs 0) (seq 0 (length hs)) 0%nat n), seq_nth by exact Hn. reflexivity.
+Qed.
+
+Lemma canon_sorted hs : ssorted (fun p : Z * Z => p) pair_ltb (canon hs).
+Proof.
+  unfold canon. generalize 0%nat at 1 as a. induction (length hs) as [|n IH]; intros a; cbn [seq map]; [constructor|].
+  constructor; [|apply IH]. intros y Hy. apply in_map_iff in Hy as (k & <- & Hk). apply in_seq in Hk. unfold pair_ltb. cbn [fst snd]. lia.
+Qed.
+
+Lemma isort_sorted_id {T K} (key : T -> K) (ltb : K -> K -> bool)
+  (irr : forall a, ltb a a = false) (tr : forall a b c, ltb a b = true -> ltb b c = true -> ltb a c = true)
+  (tot : forall a b, ltb a b = false -> ltb b a = false -> a = b) l :
+  NoDup (map key l) -> (forall x y, In x l -> In y l -> key x = key y -> x = y) -> ssorted key ltb l -> isort key ltb l = l.
+Proof.
+  intros Hnd Hinj Hs. apply (ssorted_unique key ltb irr tr).
+  - apply isort_sorted; assumption.
+  - exact Hs.
+  - intros x. split; intros Hx; [apply (Permutation_in _ (isort_perm key ltb l)); exact Hx|apply (Permutation_in _ (Permutation_sym (isort_perm key ltb l))); exact Hx].
+Qed.
+
+Lemma NoDup_map_fst_NoDup (l : list (Z * Z)) : NoDup (map fst l) -> NoDup l.
+Proof.
+  induction l as [|x l IH]; cbn; intros H; [constructor|]. inversion H; subst. constructor; [|apply IH; assumption].
+  intros Hin. apply H2. apply in_map. exact Hin.
+Qed.
+
+Lemma hashes_are_reference (L : list (Z * Z)) hs :
+  NoDup (map fst L) -> length L = length hs ->
+  (forall i h, In (i, h) L -> 0 <= i /\ nth_error hs (Z.to_nat i) = Some h) ->
+  sorted_hashes L = hs.
+Proof.
+  intros Hnd Hlen Hin. rewrite sorted_hashes_isort.
+  assert (Hincl : incl L (canon hs)).
+  { intros [i h] Hx. destruct (Hin i h Hx) as [Hi Hn]. unfold canon. apply in_map_iff. exists (Z.to_nat i). split.
+    - rewrite Z2Nat.id by exact Hi. f_equal. apply nth_error_nth. exact Hn.
+    - apply in_seq. split; [lia|]. cbn. apply nth_error_Some. rewrite Hn. discriminate. }
+  assert (Hperm : Permutation L (canon hs)).
+  { apply NoDup_Permutation_bis; [apply NoDup_map_fst_NoDup; exact Hnd| |exact Hincl]. unfold canon. rewrite map_length, seq_length. lia. }
+  rewrite (isort_perm_invariant (fun p : Z * Z => p) pair_ltb pair_ltb_irrefl pair_ltb_trans pair_ltb_total L (canon hs) Hperm).
+  - rewrite isort_sorted_id; [apply canon_snd|exact pair_ltb_irrefl|exact pair_ltb_trans|exact pair_ltb_total| | |apply canon_sorted].
+    + rewrite map_id. apply (Permutation_NoDup Hperm). apply NoDup_map_fst_NoDup. exact Hnd.
+    + intros x y _ _ E. exact E.
+  - rewrite map_id. apply NoDup_map_fst_NoDup. exact Hnd.
+Qed.
+
+(* C03/C04, unbounded: whatever the schedule, the number of hashers and the number of pieces, a hashing
+   run over readable pieces that returns True has collected exactly the digests of the pieces, in order *)
+Theorem true_means_reference c s hs :
+  reach c s -> cf_verify c = None -> yielded (cf_items c) = map RPiece hs -> cf_total c = zlen hs ->
+  s_result s = Some ResTrue -> sorted_hashes (s_hashes s) = hs.
+Proof.
+  intros Hr Hv HY Htot Hres. pose proof (flow_invariant c s Hr) as Hf. destruct (result_invariant c s Hr) as [_ Hcount].
+  specialize (Hcount Hres Hv). apply hashes_are_reference.
+  - exact (fi_hnodup c s Hf).
+  - rewrite sorted_hashes_isort in Hcount. unfold zlen in *. rewrite map_length in Hcount.
+    rewrite (Permutation_length (isort_perm (fun p : Z * Z => p) pair_ltb (s_hashes s))) in Hcount. lia.
+  - intros i h Hin. pose proof (fi_hashes c s Hf) as Hh. rewrite Forall_forall in Hh. destruct (Hh (i, h) Hin) as [Hseen Hn]. cbn [fst snd] in *.
+    assert (Hi : 0 <= i).
+    { pose proof (fi_bound c s Hf) as Hb. rewrite Forall_forall in Hb. apply (Hb i). unfold indices. apply in_or_app. right. exact Hseen. }
+    split; [exact Hi|]. rewrite HY in Hn. rewrite nth_error_map in Hn. destruct (nth_error hs (Z.to_nat i)); [injection Hn as ->; reflexivity|discriminate].
+Qed.
+
+(* the collector's duplicate check ("assert piece_index not in self._pieces_seen") can never fire *)
+Theorem no_piece_twice c s idx h exc r :
+  reach c s -> s_hq s = QPiece idx h exc :: r -> ~ In idx (s_seen s).
+Proof.
+  intros Hr Ehq Hs. pose proof (fi_nodup c s (flow_invariant c s Hr)) as Hnd. unfold indices in Hnd.
+  assert (Hin : In idx (flat_map qidx (flight s))) by (apply (In_indices_hq s (QPiece idx h exc)); [rewrite Ehq; left; reflexivity|left; reflexivity]).
+  apply in_split in Hin as (l1 & l2 & E). rewrite E in Hnd. rewrite <- app_assoc in Hnd. cbn [app] in Hnd.
+  apply NoDup_remove_2 in Hnd. apply Hnd. apply in_or_app. right. apply in_or_app. right. exact Hs.
+Qed.
